@@ -574,8 +574,8 @@ func c06Work(w *h.W) {
 	}
 	// (3b) token adjacency: operator names that can fuse with a neighbouring token (a digit string, a
 	// float, a quote, a comment opener, another symbol) x all specifiers x leaves of every token class
-	adjNames := []string{"e1", "e", "x1", "b1", "o7", "a", "é", "/*", "*", "-", "'", "0", "[]", "{}", "|", "E"}
-	adjLeaves := []ref.Term{ref.Int(0), ref.Int(1), ref.Int(-1), ref.Flt(1.0), ref.Flt(-1.0), ref.Flt(1e10), ref.Flt(1.5e-7), ref.Atom("a"), ref.Atom("-"), ref.Atom("*"),
+	adjNames := []string{"e1", "e", "x1", "b1", "o7", "a", "é", "/*", "*", "-", "'", "0", "[]", "{}", "|", "E", "\x00"} // the last: the atom whose internal value is 0
+	adjLeaves := []ref.Term{ref.C(",", ref.Atom("a"), ref.Atom("b")), ref.C(":-", ref.Atom("a"), ref.Atom("b")), ref.Int(0), ref.Int(1), ref.Int(-1), ref.Flt(1.0), ref.Flt(-1.0), ref.Flt(1e10), ref.Flt(1.5e-7), ref.Atom("a"), ref.Atom("-"), ref.Atom("*"),
 		ref.Atom("[]"), ref.Atom("{}"), ref.Atom("A b"), ref.Atom(""), ref.Atom("/*"), ref.NewVar("V"), ref.C("f", ref.Atom("a")), ref.List(ref.Int(1)), ref.C("{}", ref.Int(1)),
 		ref.C("-", ref.Int(1)), ref.C("-", ref.Atom("a")), ref.C("-", ref.Int(1), ref.Int(2)), ref.C("$VAR", ref.Int(1))}
 	for _, n := range adjNames {
@@ -743,7 +743,7 @@ func c06Replay(b []byte) (string, string, bool) {
 func init() {
 	h.Register(&h.Check{
 		ID: "C06",
-		Rule: "(1) every leaf of a 71-element set (atoms of every lexical class: solo, graphic, alphanumeric, quoted with escapes, empty, control characters, non-ASCII letters and symbols, names of operators, exponent-like names; integers incl. min/max; floats incl. denormal, max, -0.0; variables) and every depth-1 term that puts such a leaf into every operand position of every prefix and infix operator of the default table, f/1..3, lists, partial lists, {}/1, '{}'/2, '[]'/1, nested minus, under each double_quotes flag and each of writeq, write_canonical, write_term quoted, quoted+ignore_ops; (2) depth 2: every constructor around every depth-1 term over a reduced leaf set, in each operand position; (3) operator tables reached by op/3 on o1, o2 and '-' (7 specifiers x 3 priorities, singly and in pairs): all terms of depth <= 2 over {o1, o2, -, a, 1, -1} with functors o1, o2, - of arity 1 and 2; (3b) token adjacency: each of 16 operator names that can fuse with a neighbouring token (e1, e, x1, b1, o7, a, a non-ASCII letter, /*, *, -, a quote, 0, [], {}, |, E) x 7 specifiers x 2 priorities x 23 leaves of every token class (integers, floats with and without exponent, atoms of every class, a variable, compound, list, {}, negative numbers vs. -(1)) in every operand position, nested, under minus, as argument and list element; and one atom per Unicode general category alone and next to letters (1); (4) number_codes/number_chars there and back for the integer boundary grid and a float grid of every (8th) binade x 64 mantissa patterns x sign plus the neighbours of every power of ten; (5) representations: every list of <= 3 (4) elements over 8 values (incl. a non-ASCII character and its code) built through each of the 16 construction recipes of C02 (bracket, bar, partial then bound, './2', atom_chars/atom_codes output, double-quoted literal, append/3 in three modes, findall/3, length/2 + unification, ...) bare and in 8 contexts, through three writers. Distinct = (term, writer, flag).",
+		Rule: "(1) every leaf of a 71-element set (atoms of every lexical class: solo, graphic, alphanumeric, quoted with escapes, empty, control characters, non-ASCII letters and symbols, names of operators, exponent-like names; integers incl. min/max; floats incl. denormal, max, -0.0; variables) and every depth-1 term that puts such a leaf into every operand position of every prefix and infix operator of the default table, f/1..3, lists, partial lists, {}/1, '{}'/2, '[]'/1, nested minus, under each double_quotes flag and each of writeq, write_canonical, write_term quoted, quoted+ignore_ops; (2) depth 2: every constructor around every depth-1 term over a reduced leaf set, in each operand position; (3) operator tables reached by op/3 on o1, o2 and '-' (7 specifiers x 3 priorities, singly and in pairs): all terms of depth <= 2 over {o1, o2, -, a, 1, -1} with functors o1, o2, - of arity 1 and 2; (3b) token adjacency: each of 17 operator names that can fuse with a neighbouring token (e1, e, x1, b1, o7, a, a non-ASCII letter, /*, *, -, a quote, 0, [], {}, |, E, NUL) x 7 specifiers x 2 priorities x 25 leaves of every token class (incl. comma and :- terms as arguments) (integers, floats with and without exponent, atoms of every class, a variable, compound, list, {}, negative numbers vs. -(1)) in every operand position, nested, under minus, as argument and list element; and one atom per Unicode general category alone and next to letters (1); (4) number_codes/number_chars there and back for the integer boundary grid and a float grid of every (8th) binade x 64 mantissa patterns x sign plus the neighbours of every power of ten; (5) representations: every list of <= 3 (4) elements over 8 values (incl. a non-ASCII character and its code) built through each of the 16 construction recipes of C02 (bracket, bar, partial then bound, './2', atom_chars/atom_codes output, double-quoted literal, append/3 in three modes, findall/3, length/2 + unification, ...) bare and in 8 contexts, through three writers. Distinct = (term, writer, flag).",
 		Explanation: "state = a term built WITHOUT the reader (atom_codes/2 with placeholder code lists, =../2); transition = write with the real writer, then read the text + ' .' with read_term/2 under the same table and flags; the term read must equal the term written up to variable renaming, floats by bit pattern; structural capture on both sides",
 		Assumptions: []string{"'$VAR'(N) terms are excluded as the property states", "terms are built through atom_codes/2, =../2 and placeholders, which C15/C16 check separately"},
 		Work:        c06Work,
